@@ -10,6 +10,7 @@ mod halflock;
 mod regconc;
 mod channel;
 mod iterconc;
+mod iterq;
 mod entries;
 mod flags;
 mod pipes;
@@ -28,6 +29,7 @@ fn main() {
         "regconc" => regconc::main(),
         "channel" => channel::main(),
         "iterconc" => iterconc::main(),
+        "iterq" => iterq::main(),
         "entries" => entries::main(),
         "flags" => flags::main(),
         "pipes" => pipes::main(),
